@@ -19,6 +19,8 @@ def gen_c13(rnd, n, thorough=False):
         kind = rnd.pick(['failed_open', 'failed_open', 'block', 'proc', 'sessions', 'waitopen', 'childhold', 'dblclose', 'lockcreate', 'recreatewait'])
         if c == 3:
             kind = 'copysession'
+        if c == 4:
+            kind = 'gensession'
         lines = []
         if kind == 'failed_open':
             # every way Open can fail after the descriptor was obtained (and a control that succeeds)
@@ -72,6 +74,10 @@ def gen_c13(rnd, n, thorough=False):
                 lines += fill_ops(rnd, 'd/a.wsp', layout, 2, 0x3f000000, density=0.4, inconsistent=False)
             lines.append("clicopy src=s:a.wsp dest=d:a.wsp from=0 until=0 archive=-1 copynan=0 m=2 x=3f000000 layout=%s remote=1 probe=1" % lay_csv(layout))
             observe_all(lines, 'd/a.wsp', layout)
+            tags = {'kind': kind}
+        elif kind == 'gensession':
+            # generate is one session on the file it creates: the path is there and locked while it works
+            lines += ["cligenheld dest=g/x.wsp layout=%s" % lay_csv([(1, rnd.pick([3000, 3600])), (60, 100)]), "lockblock g/x.wsp"]
             tags = {'kind': kind}
         elif kind == 'childhold':
             layout = [(1, 20), (5, 10)]
